@@ -21,6 +21,8 @@ def check(chk, thorough=False):
     chk.run('C10.h', 'R-ORDER', 'a damaged bundle is dropped silently before anything is recorded or reported (= C08.b)', lambda ob: __import__('sa.props.c08', fromlist=['c08b']).c08b(tree, ob), floor=6)
     chk.run('C10.i', 'R-TRUTH', 'identities and destinations are compared as they are on the wire: decoding keeps the text of every EID and every value (= C02.e)', lambda ob: __import__('sa.props.c02', fromlist=['c02e']).c02e(tree, ob), floor=20)
     chk.run('C10.j', 'R-SCHEMA', 'a well-formed administrative record addressed to this node is delivered: the status-report handler does not take the record apart by a fixed item count (RFC 9171 6.1.1: four items, six for a report about a fragment)', lambda ob: c10j(tree, ob), floor=1)
+    chk.run('C10.k', 'R-FRESH', 'the seen-set, queues and per-bundle records belong to their agent / container object (created per instance, no shared default objects)', lambda ob: (__import__('sa.props.common', fromlist=['per_instance_state', 'fresh_defaults']).per_instance_state(tree, ob, 'bp/agent.py', ('Agent',)), __import__('sa.props.common', fromlist=['per_instance_state', 'fresh_defaults']).per_instance_state(tree, ob, 'bp/util.py', ('BundleContainer',)), __import__('sa.props.common', fromlist=['per_instance_state', 'fresh_defaults']).per_instance_state(tree, ob, 'bp/cla.py', ('AbstractAdaptor', 'UdpclAdaptor', 'BtpuAdaptor', 'TcpclAdaptor')), __import__('sa.props.common', fromlist=['per_instance_state', 'fresh_defaults']).fresh_defaults(tree, ob, ['bp/agent.py', 'bp/util.py', 'bp/cla.py', 'bp/config.py'])), floor=3)
+    chk.run('C10.l', 'R-TRUTH', 'the node ID and the route tables the agent works with are the configured ones: the configuration loader hands every setting on as read', lambda ob: __import__('sa.props.common', fromlist=['config_verbatim']).config_verbatim(tree, ob, 'bp/config.py'), floor=2)
     chk.run('C10.e', 'R-WHO', 'actions are recorded only through record_action (two sanctioned direct edits)', lambda ob: c10e(tree, ob), floor=3)
 
 
